@@ -21,6 +21,6 @@ ShapesW == { <<D("ms_p2sh", 2, <<1, 2, 3>>, "c"), D("p2pkh", 1, <<1>>, "u")>>,
 \* subset of keys and of inputs, to the full depth
 DeepPasses == {p \in AllPasses : p.mech = "lookup" /\ p.scr /\ p.reg = {} /\ p.sec = {} /\ p.fresh /\ p.I # {}}
 \* "wide" configurations: every mechanism, keychain tables, missing scripts - fewer key subsets
-WidePasses == {p \in AllPasses : /\ Canonical(p) /\ p.I # {}
+WidePasses == {p \in AllPasses : /\ Canonical(p) /\ p.I \in {Ins, {1}}
                                   /\ Cardinality(p.K) \in {0, 1, NK} /\ p.reg \in {{}, {1, 2}, {2, 3}, Keys}}
 =============================================================================
